@@ -75,7 +75,9 @@ def install_numpy_load_seam():
 
     def load(file, *a, **k):
         cl = current_client()
-        if cl is None or not cl.io_enabled or cl.op is None or isinstance(file, FaultyStream):
+        if cl is None or not cl.io_enabled or cl.op is None or isinstance(file, FaultyStream) \
+                or not sys._getframe(1).f_code.co_filename.startswith(env.LIB_PREFIX):
+            # not a simulated client, or the harness's own use of numpy.load
             return _real_np_load(file, *a, **k)
         name = getattr(file, "name", None) if not isinstance(file, (str, bytes)) else file
         try:
@@ -434,6 +436,8 @@ _ORDER = [
     "pytorch_wavelets.dwt.transform1d",
     "pytorch_wavelets.dwt.transform2d",
     "pytorch_wavelets.dtcwt.transform2d",
+    "pytorch_wavelets.dwt.swt_inverse",
+    "pytorch_wavelets.dtcwt.lowlevel2",
     "pytorch_wavelets.dtcwt",
     "pytorch_wavelets.scatternet.lowlevel",
     "pytorch_wavelets.scatternet.layers",
